@@ -767,4 +767,10 @@ are build-time evaluations, not kernel proofs; they show the model and the check
 #guard ((serve false exModel exStored (Query.fresh exStored) [⟨exCtx, "doc:1", "viewer"⟩, ⟨[], "doc:1", "viewer"⟩]).map Res.render).getLast? ≠
   some (execute exModel exStored [] "doc:1" "viewer").render
 
+/-- the two tuple-read loops of Expand stop quietly only at the end of the data (`ErrIteratorDone`): a cancelled or
+failed read is an error of the request, never a shorter leaf (the model's `execute` reads whole lists) -/
+theorem tie_read_loops_stop_only_at_end : Gen.Expand.loopBreaks =
+    ["resolveThis: errors.Is(err, storage.ErrIteratorDone)",
+     "resolveTupleToUserset: errors.Is(err, storage.ErrIteratorDone)"] := by decide
+
 end OpenFGAVerif.C30
